@@ -16,6 +16,9 @@ def _tmp():
     return tempfile.TemporaryDirectory(dir=base)
 
 
+TINY_TITLES = ("e11e11", "e11e22_s", "s12s12", "s23s13", "sig33_s", "e12e12_s")
+
+
 def b_columnfile(ctx):
     cfm = repo_module("ImageD11.columnfile")
     fails, ev, samples = [], 0, []
@@ -23,14 +26,17 @@ def b_columnfile(ctx):
         if len(fails) < 6:
             fails.append(dict(name=name, **k))
     title_sets = [["sc", "fc", "omega", "Number_of_pixels", "sum_intensity"], ["gx", "gy", "gz", "h", "k", "l", "U11", "UBI23"],
-                  ["eps11", "eps23_s", "mycolumn", "spot3d_id"], ["omega"]]
+                  ["eps11", "eps23_s", "mycolumn", "spot3d_id"], ["omega"],
+                  ["e11e11", "e11e22_s", "s12s12", "s23s13", "sig33_s", "e12e12_s"]]
     rng = np.random.RandomState(ctx.seed)
     with _tmp() as tmp:
         for ts in title_sets:
             for nrows in (1, 2, 3, len(VALUES)):
                 data = {}
                 for t in ts:
-                    if t in cfm.INTS:
+                    if t in TINY_TITLES:
+                        data[t] = np.array([1.2345678 * 10.0 ** (-3 - (k % 10)) * (-1) ** k for k in range(nrows)])
+                    elif t in cfm.INTS:
                         data[t] = np.array([float(int(v) % 100000) for v in (VALUES * 2)[:nrows]])
                     else:
                         data[t] = np.array((VALUES[rng.randint(len(VALUES)):] + VALUES)[:nrows])
@@ -50,6 +56,13 @@ def b_columnfile(ctx):
                         continue
                     for t in ts:
                         fmt = cfm.FORMATS.get(t, "%f")
+                        if t in TINY_TITLES:
+                            # strain / stress (co)variances are tiny numbers: 5 significant digits must survive whatever their magnitude
+                            rel = np.abs(r.getcolumn(t) - c.getcolumn(t)) / np.abs(c.getcolumn(t))
+                            if not (rel < 1e-4).all():
+                                bad("text: a strain / stress (co)variance column lost its significant digits", title=t, fmt=fmt,
+                                    wrote=c.getcolumn(t).tolist(), read=r.getcolumn(t).tolist())
+                            continue
                         want = np.array([float(fmt % v) for v in c.getcolumn(t)])
                         if not np.array_equal(r.getcolumn(t), want):
                             bad("text: value not preserved to the documented precision", title=t, fmt=fmt,
@@ -249,6 +262,18 @@ def gen_formats(ctx):
     for lst, fmt in ((cfm.FLOATS, "%.4f"), (cfm.LONGFLOATS, "%.12f"), (cfm.EXPONENTIALS, "%.4e")):
         ok = all(cfm.FORMATS.get(t) == fmt for t in lst if t not in cfm.INTS)
         obs.append(make_ob("py:columnfile.FORMATS[%s]" % fmt, [], z3.BoolVal(bool(ok)), kind="closed-term", fn="py:columnfile.FORMATS", prop="C18"))
+    # the documented families, written out independently of the module's own lists: strain / stress tensor elements (sample frame with
+    # "_s"), their covariances over the upper triangle *including the diagonal* (the variances), orientation matrix elements
+    ijs = [11, 22, 33, 23, 13, 12]
+    expo = ["%s%d%s" % (h, v, t) for v in ijs for h in ("eps", "sig") for t in ("", "_s")]
+    expo += ["%s%d%s%d%s" % (h, ijs[i], h, ijs[j], t) for i in range(6) for j in range(i, 6) for h in ("e", "s") for t in ("", "_s")]
+    ok = len(set(expo)) == 108 and all(cfm.FORMATS.get(t) == "%.4e" for t in expo)
+    obs.append(make_ob("py:columnfile.FORMATS[strain, stress and their covariances are written with %.4e]", [], z3.BoolVal(bool(ok)),
+                       kind="closed-term", fn="py:columnfile.FORMATS", prop="C18"))
+    longf = ["%s%d%d" % (s_, i, j) for s_ in ("U", "UBI") for i in range(1, 4) for j in range(1, 4)]
+    ok = all(cfm.FORMATS.get(t) == "%.12f" for t in longf)
+    obs.append(make_ob("py:columnfile.FORMATS[U and UBI elements are written with %.12f]", [], z3.BoolVal(bool(ok)),
+                       kind="closed-term", fn="py:columnfile.FORMATS", prop="C18"))
     ok = all(cfm.FORMATS.get(t) == "%.0f" for t in cfm.INTS)
     obs.append(make_ob("py:columnfile.FORMATS[ints]", [], z3.BoolVal(bool(ok)), kind="closed-term", fn="py:columnfile.FORMATS", prop="C18"))
     for o in obs:
@@ -258,7 +283,7 @@ def gen_formats(ctx):
 
 def units():
     return [GenUnit("py:columnfile.FORMATS", gen_formats, "trace"),
-            BoundedUnit("columnfile-text-and-hdf", b_columnfile, "4 title sets x 4 row counts x 13 values x twice"),
+            BoundedUnit("columnfile-text-and-hdf", b_columnfile, "5 title sets x 4 row counts x 13 values x twice"),
             BoundedUnit("parameter-files", b_parameters, "15 single-parameter files"),
             BoundedUnit("grain-and-ubi-files", b_grains, "grain lists of 1,2,3,11,25"),
             BoundedUnit("sparse-frames-hdf", b_sparse, "3 shapes x 2 fills")]
